@@ -41,7 +41,14 @@ pub enum Case {
     /// a target that takes a root of a power of a unit: `c u -> (u^n)^(1|n)`
     RootTarget { c: u32, unit: String, n: u8, k: u8 },
     /// `a -> t` for two plain constants (a dimensionless target that is only a constant factor)
-    ConstTarget { a: (u32, u32), t: (u32, u32), unit: Option<String> },
+    ConstTarget {
+        a: (u32, u32),
+        t: (u32, u32),
+        unit: Option<String>,
+        /// the target's constant written as an expression of integers (`(7 mod 4)`, `(6 xor 3)`)
+        #[serde(default)]
+        expr: Option<String>,
+    },
 }
 
 const FMT_MODES: [&str; 7] = ["", "digits", "digits 3", "digits 25", "frac", "sci", "eng"];
@@ -101,11 +108,12 @@ impl Case {
                 1 => format!("{} {}^2 -> ({}^{})^(2|{})", c, unit, unit, n, n),
                 _ => format!("{} {} -> ({}^{})^(1/{})", c, unit, unit, n, n),
             },
-            Case::ConstTarget { a, t, unit } => {
+            Case::ConstTarget { a, t, unit, expr } => {
                 let n = |x: &(u32, u32)| if x.1 <= 1 { format!("{}", x.0) } else { format!("{}|{}", x.0, x.1) };
+                let tt = expr.clone().unwrap_or_else(|| n(t));
                 match unit {
-                    Some(u) => format!("{} {} -> {} {}", n(a), u, n(t), u),
-                    None => format!("{} -> {}", n(a), n(t)),
+                    Some(u) => format!("{} {} -> {} {}", n(a), u, tt, u),
+                    None => format!("{} -> {}", n(a), tt),
                 }
             }
         }
@@ -679,7 +687,7 @@ pub fn check(env: &Env, case: &Case, st: &mut Stats) -> CaseResult {
             mark(st, true, &format!("{} => {}", text, shown));
             Ok(())
         }
-        Case::ConstTarget { a, t, unit } => {
+        Case::ConstTarget { a, t, unit, expr } => {
             if let Some(u) = unit {
                 if unusable(u).is_some() {
                     st.excluded("name not usable bare in a query");
@@ -719,6 +727,11 @@ pub fn check(env: &Env, case: &Case, st: &mut Stats) -> CaseResult {
                 Out::Panic(p) => return fail(env, st, &panic_signature(&p), &text, format!("panicked: {}", p)),
                 Out::Reply(QueryReply::Conversion(c)) => c.value,
                 Out::Reply(r) => return fail(env, st, "constant-target-other-reply", &text, format!("{}", r)),
+                Out::Error(_) if expr.is_some() => {
+                    // the operator expression may come to zero, which no value can be converted to
+                    st.class("constant_target_expression_refused");
+                    return Ok(());
+                }
                 Out::Error(e) => return fail(env, st, "constant-target-refused", &text, format!("{}", e)),
             };
             let shown = parts.to_string();
@@ -1068,11 +1081,16 @@ fn const_target_strategy(pool: Arc<UnitPool>) -> impl Strategy<Value = Case> {
         (1u32..2000, 1u32..12),
         (1u32..50, 1u32..9),
         proptest::option::weighted(0.5, any::<prop::sample::Index>()),
+        proptest::option::weighted(0.3, (0u8..4, 2u32..40)),
     )
-        .prop_map(move |(a, t, u)| Case::ConstTarget {
-            a,
-            t,
-            unit: u.map(|i| pool.units[i.index(pool.units.len())].name.clone()),
+        .prop_map(move |(a, t, u, op)| {
+            let expr = op.map(|(o, k): (u8, u32)| format!("({} {} {})", t.0, ["mod", "and", "or", "xor"][o as usize % 4], k));
+            Case::ConstTarget {
+                a,
+                t,
+                unit: u.map(|i| pool.units[i.index(pool.units.len())].name.clone()),
+                expr,
+            }
         })
 }
 
